@@ -385,6 +385,9 @@ func (prop) run(c core.Case) core.Outcome {
 		if wf == "1" && sound == "1" {
 			out.Checks = append(out.Checks, noFalseAlarm(res, "wellformed-validates"))
 		}
+		if wf == "1" {
+			out.Checks = append(out.Checks, pathChecks(img, in, "imgpaths "+c.Args["recipe"])...)
+		}
 		return out
 
 	case "imgmuts":
@@ -393,7 +396,8 @@ func (prop) run(c core.Case) core.Outcome {
 		ms := parseMuts(c.Args["muts"])
 		base := runValidate(in)
 		chars, ocs := runMuts(in, ms)
-		out := core.Outcome{Class: c.Kind + ":" + histo(chars), Key: digLen(in) + chars}
+		nodes := recipeNodes(img)
+		out := core.Outcome{Class: c.Kind + ":" + histo(chars) + ":" + coverage(in, nodes, ms), Key: digLen(in) + chars}
 		// the model is compared on at most modelMuts alterations per case (the list-based model parser
 		// costs ~0.3 ms per alteration); the oracles above run on all of them
 		sub, subChars := subset(ms, chars, modelMuts)
@@ -401,6 +405,28 @@ func (prop) run(c core.Case) core.Outcome {
 			Req: "imgmuts " + mutsReq(sub) + " " + c.Args["recipe"], Exp: "ok " + subChars})
 		out.Checks = append(out.Checks, noFalseAlarm(base, "wellformed-validates"))
 		out.Checks = append(out.Checks, ocs...)
+		// the theorem's vocabulary against the recipe and the implementation's tree (paths.go)
+		out.Checks = append(out.Checks, pathChecks(img, in, "imgpaths "+c.Args["recipe"])...)
+		if base.class == "ok" && base.n == 0 {
+			vs := make([]byte, len(sub))
+			for i, m := range sub {
+				vs[i] = verdict(in, nodes, m.off, m.val)
+			}
+			out.Checks = append(out.Checks, core.Check{Tag: "M", What: "theorem-verdict",
+				Req: "imgwhy " + mutsReq(sub) + " " + c.Args["recipe"], Exp: "ok " + string(vs)})
+			// what the theorem proves of the model must be seen on the implementation: an alteration with
+			// verdict T that the implementation misses is a broken tie (the alter-detected oracles above say
+			// the same for the classes the property names; this one also covers the AA byte of files without
+			// body checksum and the signature of nested volumes)
+			for i, m := range sub {
+				if vs[i] == 'T' && (subChars[i] == '0') {
+					out.Checks = append(out.Checks, core.Check{Tag: "M", What: "theorem-applies-detected",
+						Req: "imgwhy " + mutsReq(sub[i:i+1]) + " " + c.Args["recipe"],
+						Exp: fmt.Sprintf("missed by the implementation: byte %#x %02x->%02x", m.off, in[m.off], m.val)})
+					break
+				}
+			}
+		}
 		return out
 
 	case "hex", "file":
@@ -424,6 +450,12 @@ func (prop) run(c core.Case) core.Outcome {
 		out.Checks = append(out.Checks, core.Check{Tag: "M", What: "validate", Req: "validate " + h, Exp: exp})
 		if c.Args["valid"] == "1" {
 			out.Checks = append(out.Checks, noFalseAlarm(res, "wellformed-validates"))
+		}
+		if res.class == "ok" && len(in) <= 200_000 {
+			if tree, class, _ := parseOnly(in); class == "ok" {
+				out.Checks = append(out.Checks, core.Check{Tag: "M", What: "paths-impl", Req: "paths " + h,
+					Exp: nodesLine(treeNodes(tree))})
+			}
 		}
 		var ms []mut
 		if c.Args["muts"] == "headers" { // derive the header positions from the implementation's own tree
@@ -526,6 +558,51 @@ func (prop) run(c core.Case) core.Outcome {
 	panic("c09: unknown op " + c.Op)
 }
 
+// pathChecks: the model's `paths` answer against the nodes of the recipe and against the nodes of the tree
+// the implementation built.
+func pathChecks(img *hu.Img, in []byte, req string) []core.Check {
+	cs := []core.Check{{Tag: "M", What: "paths-recipe", Req: req, Exp: nodesLine(recipeNodes(img))}}
+	if tree, class, _ := parseOnly(in); class == "ok" {
+		cs = append(cs, core.Check{Tag: "M", What: "paths-impl", Req: req, Exp: nodesLine(treeNodes(tree))})
+	}
+	return cs
+}
+
+func bucket(n int) string {
+	switch {
+	case n == 0:
+		return "0"
+	case n < 10:
+		return "<10"
+	case n < 100:
+		return "<100"
+	}
+	return ">=100"
+}
+
+// coverage summarises where the protected alterations of a case lie: in the first top-level volume, in a
+// later top-level volume, in a nested volume; and how many meet an exception of the theorem.
+func coverage(in []byte, nodes []node, ms []mut) string {
+	var later, nested, exc int
+	for _, m := range ms {
+		v, d, ok := where(nodes, m.off)
+		if !ok {
+			continue
+		}
+		switch {
+		case d > 0:
+			nested++
+		case v > 0:
+			later++
+		}
+		switch verdict(in, nodes, m.off, m.val) {
+		case 'z', 'f', 'g':
+			exc++
+		}
+	}
+	return fmt.Sprintf("later-vol%s/nested%s/exception%s", bucket(later), bucket(nested), bucket(exc))
+}
+
 func classOf(r vres) string {
 	if r.class != "ok" {
 		return r.field()
@@ -551,17 +628,7 @@ func histo(chars string) string {
 			other++
 		}
 	}
-	b := func(n int) string {
-		switch {
-		case n == 0:
-			return "0"
-		case n < 10:
-			return "<10"
-		case n < 100:
-			return "<100"
-		}
-		return ">=100"
-	}
+	b := bucket
 	return fmt.Sprintf("parse-err%s/flagged%s/silent%s/other%s", b(e), b(pos), b(z), b(other))
 }
 
@@ -735,6 +802,64 @@ func mutsFor(r *rand.Rand, img *hu.Img, in []byte, maxBody int) []mut {
 	return ms
 }
 
+// deepCase: a sound image with at least two top-level volumes and at least one nested volume (bare BIOS
+// region or flash image); alterations of every classified header position and of sampled body bytes that lie
+// in a later top-level volume or in a nested volume, plus the four signature bytes of every nested volume
+// (class "ns": the property does not name them, theorem c09_alter_detected_image covers them — compared with
+// the model only).
+func deepCase(r *rand.Rand) (core.Case, bool) {
+	for try := 0; try < 40; try++ {
+		g := &hu.Gen{R: r, MaxAlign: 2, Depth: 2}
+		var img *hu.Img
+		if r.Intn(3) == 0 {
+			img = &hu.Img{Flash: g.Flash(2 + r.Intn(4))}
+		} else {
+			img = &hu.Img{Bios: g.Bios(0, 2+r.Intn(3))}
+		}
+		if !MakeSound(r, img) {
+			continue
+		}
+		in := img.Ser()
+		if len(in) > 40000 {
+			continue
+		}
+		nodes := recipeNodes(img)
+		var nestedVols, laterVols int
+		for _, n := range nodes {
+			if n.Kind == 'v' && n.Depth > 0 {
+				nestedVols++
+			}
+			if n.Kind == 'v' && n.Depth == 0 && n.VolIdx > 0 {
+				laterVols++
+			}
+		}
+		if nestedVols == 0 || laterVols == 0 {
+			continue
+		}
+		var ms []mut
+		for _, m := range mutsFor(r, img, in, 96) {
+			if v, d, ok := where(nodes, m.off); ok && (v > 0 || d > 0) {
+				ms = append(ms, m)
+			}
+		}
+		for _, n := range nodes {
+			if n.Kind == 'v' && n.Depth > 0 {
+				for k := 40; k < 44; k++ {
+					for _, v := range threeValues(in[n.Pos+k]) {
+						ms = append(ms, mut{n.Pos + k, v, "ns"})
+					}
+				}
+			}
+		}
+		if len(ms) == 0 {
+			continue
+		}
+		return core.Case{Kind: "muts-deep", Op: "imgmuts", Args: map[string]string{
+			"recipe": img.Recipe(), "muts": mutsText(ms)}}, true
+	}
+	return core.Case{}, false
+}
+
 func fileIDs(v *hu.FV, out *[][]byte) {
 	if v.Other {
 		return
@@ -808,8 +933,10 @@ func (prop) Gen(r *rand.Rand, tier string) []core.Case {
 		"path": "integration/roms/ovmfSECFV.fv", "valid": "1", "muts": "headers"}})
 	// the hand-made cases (crafted.go) are stored in corpus/C09 and run first on every check
 	nSound, nRaw, nExh, nSamp, nEdit, nSeq := 220, 60, 60, 50, 120, 90
+	nDeep := 40
 	if tier == "thorough" {
 		nSound, nRaw, nExh, nSamp, nEdit, nSeq = 4000, 800, 700, 900, 1500, 1500
+		nDeep = 600
 		cs = append(cs, bigSeq())
 	}
 	cs = append(cs, bigShrinkSeq())
@@ -836,6 +963,11 @@ func (prop) Gen(r *rand.Rand, tier string) []core.Case {
 		}
 		cs = append(cs, core.Case{Kind: "muts-hdr", Op: "imgmuts", Args: map[string]string{
 			"recipe": img.Recipe(), "muts": mutsText(mutsFor(r, img, in, 48))}})
+	}
+	for i := 0; i < nDeep; i++ { // later volumes and nested volumes: every header position, sampled body bytes
+		if c, ok := deepCase(r); ok {
+			cs = append(cs, c)
+		}
 	}
 	for i := 0; i < nEdit; i++ {
 		if c, ok := editCase(r); ok {
